@@ -158,7 +158,7 @@ def load(input_name, keys=..., stride=1):
             if len(keys) == 1:
                 logger.debug("Found only one key ('%s') returning that as "
                              "numpy array", keys[0])
-                return handle.get_node('/' + keys[0])[:]
+                return handle.get_node('/' + keys[0])[::stride]
 
             logger.debug('Loading keys %s into RA', keys)
 
